@@ -25,7 +25,9 @@ func r171(c *Ctx, r *R) {
 			if call == nil || g.Branch != want || !nameMatches(callName(call.Common()), "consensus/raft.find") {
 				return false
 			}
-			return paramIndex(f, call.Common().Args[1]) == 2
+			// (the peer searched for is the wrapper's own parameter, also
+			// when the search sits in a helper shared by both wrappers)
+			return paramIndex(f, g.Resolve(call.Common().Args[1])) == 2
 		})
 	}
 	if add != nil {
